@@ -3,7 +3,7 @@ import re
 from engine import rule, Ob, key_of, EXPLAIN, ASSUME
 from sym import Lin, add, sub, const, tag, show, is_const, as_lin, implied_facts, struct_get
 from util import *
-from order import Order, term_eq
+from order import Order, term_eq, atoms_deep
 
 EXPLAIN["C04"] = (
     "Decides for the five allocating bodies of each flavour (alloc_bytes_in, alloc_aligned_bytes_in<T>, alloc_in<T>, both slow "
@@ -391,6 +391,53 @@ def e6(ctx):
                     yield Ob(key_of("C04-E6", c["body"].path, "narrowing-cast-of-type-size"), False,
                              "`%s as u32` is not bounded by a dominating guard: for a type of 4 GiB or more the size is truncated and the handle is smaller than the type" % short(v, 70), ctx.loc(c))
             yield Ob(key_of("C04-E6", b.path, "arith-sites"), n_sites >= 3, "%d arithmetic site(s) reachable from %s, each bounded or justified" % (n_sites, name), b.loc())
+
+
+CAST_JUSTIFIED = {
+    ("try_new_segment", "aligned-offset+8"): "node + 8 <= offset + size of the range being released, which lies inside the arena (<= cap <= u32::MAX); the segment is made only when size > padding + 8 (dominating guard)",
+    ("get_aligned_pointer_mut", "offset-of-a-meta"): "the offset is Meta.ptr_offset (a u32) of the allocation just made, widened to usize by the caller",
+}
+
+
+@rule("C04-E7", "C04", 6, "sizes are never silently narrowed on the allocation paths: every cast to u32 (or narrower) of a value that is not already known to fit is bounded by the "
+      "dominating guards and type widths - a request computed in usize (`pad + extra as usize`) and cut to u32 turns a request of 4 GiB into a small one that a free-list "
+      "segment satisfies - or is a position inside the arena named in CAST_JUSTIFIED")
+def e7(ctx):
+    for fl in FLAVOURS:
+        for name in ("alloc_bytes", "alloc_aligned_bytes", "alloc"):
+            b = ctx.facts.one(r"^<%s::Arena as allocator::Allocator>::%s$" % (fl, name))
+            ev, res = ctx.eval(b, max_depth=8)
+            seenc = set()
+            n = 0
+            for c in res.log:
+                if c["kind"] != "cast" or c.get("ty") not in ("u32", "u16", "u8") or not isinstance(c["value"], (tuple, Lin)):
+                    continue
+                k = (c["body"].path, c["bb"], c.get("si"))
+                if k in seenc:
+                    continue
+                seenc.add(k)
+                n += 1
+                v = canon(c["value"])
+                fs = set(canon(f) for f in ctx.facts_of(ev, c))
+                # align_offset returns a u32: the alignUp intrinsic that models it never exceeds u32::MAX
+                ext = _bounds_for([v], c["body"]) + [sub(const(2**32 - 1), t) for t in atoms_deep(v) if tag(t) == "alignUp"]
+                ok = Order(fs, extra_ge0=ext).le(v, const(TYMAX[c["ty"]]))
+                why = ""
+                if not ok:
+                    fn = c["body"].name
+                    role = None
+                    lv = as_lin(v) if isinstance(v, (Lin, tuple)) else None
+                    if fn == "try_new_segment" and lv is not None and lv.c == 8 and len(lv.m) == 1 and tag(list(lv.m)[0]) == "alignUp":
+                        role = "aligned-offset+8"
+                    elif fn == "get_aligned_pointer_mut" and ("ptr_offset" in show(v) or v == ("param", 1, "offset")):
+                        role = "offset-of-a-meta"
+                    if role and (fn, role) in CAST_JUSTIFIED:
+                        ok, why = True, " [invariant: %s]" % CAST_JUSTIFIED[(fn, role)]
+                if not ok:
+                    yield Ob(key_of("C04-E7", c["body"].path, "narrowing-cast"), False,
+                             "`%s as %s` in %s is not bounded by any dominating guard, type width or named invariant: a value of 2^32 or more is cut to its low bits" %
+                             (short(v, 80), c["ty"], c["body"].name), ctx.loc(c))
+            yield Ob(key_of("C04-E7", b.path, "cast-sites"), n >= 3, "%d narrowing cast site(s) reachable from %s::%s, each bounded or justified" % (n, fl, name), b.loc())
 
 
 @rule("C04-E6a", "C04", 1, "align_offset (treated as the intrinsic alignUp at its 16 call sites - every allocation path, the constructors' layout formula, Meta / buffer "
